@@ -21,6 +21,28 @@ CLAIMED = {
             "converters x three brokers, plus all ordered behaviour pairs run concurrently with a bystander; per "
             "delivery exactly one terminal broker call of the predicted kind, actor invoked once, final place per model.",
             FAKES + " cron recurrences excluded (croniter not installed).", "DESIGN.md 4 C02"),
+    "C03": ("model_checking", "stop-signal sweep over every loop iteration x one time slip, real worker on three brokers",
+            "For every scenario (broker x graceful period x actor kind x load) SIGTERM is delivered at the select phase "
+            "of every loop iteration of the run, alone and combined with one time slip (a timer firing in the middle "
+            "of the shutdown chain) within 16 iterations; after run() returned and the loop settled every message must "
+            "rest in a state the lifecycle model allows, nothing in flight, run() back within grace + 6.5 s.",
+            FAKES + " Signals become visible at the select phase as on a real loop (validated against stock asyncio).",
+            "DESIGN.md 4 C03"),
+    "C04": ("model_checking", "exhaustive matrix of retry chains run to the end in virtual time",
+            "Budget N in 0..3 x first succeeding attempt x failure kind x retry policy x recurrence x broker, plus "
+            "retry()/force_retry() at the budget boundary: attempt counters 0,1,2.., never above N unforced, back-off "
+            "never shorter than the policy's delay (1 ms tolerance), chain ends acked / dead / rescheduled with counter 0.",
+            FAKES, "DESIGN.md 4 C04"),
+    "C06": ("model_checking", "all duration sequences x outcomes x first-run settings, real Job + Worker over several iterations",
+            "Every sequence of actor durations from {0,.3p,.7p,1.2p,2.6p} of length 3 (4 thorough) x outcome pattern x "
+            "deferred_until setting x period: exactly one successor per iteration, counter 0, timestamp restarted, "
+            "now < next <= now+p, next >= previous scheduled time + p, never started before its scheduled time.",
+            FAKES + " cron recurrences excluded (croniter not installed).", "DESIGN.md 4 C06"),
+    "C10": ("model_checking", "exhaustive matrix M x backlog x durations x tasks_limit x queues x broker, plus testing plugin",
+            "Each cell is a real Worker.run() that has to stop by itself: executions started <= M, run() returns after "
+            "M finished, every message beyond M waiting with identical parameters; run-on-enqueue mode of the testing "
+            "plugin returns after exactly that job ran once.",
+            FAKES, "DESIGN.md 4 C10"),
 }
 
 PENDING_REASON = "check not built yet in this revision of /verif (see DESIGN.md section 4 for the plan)"
